@@ -560,6 +560,9 @@ func (nopHandler) HandleXMPP(xmlstream.TokenReadEncoder, *xml.StartElement) erro
 type iqResponder struct {
 	r xml.TokenReader
 	c chan xmlstream.TokenReadCloser
+	// once guards the close of c: closing a response a second time (an explicit
+	// Close followed by a deferred one, say) must not panic.
+	once *sync.Once
 }
 
 func (r iqResponder) Token() (xml.Token, error) {
@@ -567,7 +570,7 @@ func (r iqResponder) Token() (xml.Token, error) {
 }
 
 func (r iqResponder) Close() error {
-	close(r.c)
+	r.once.Do(func() { close(r.c) })
 	return nil
 }
 
@@ -637,8 +640,9 @@ func handleInputStream(s *Session, handler Handler) (err error) {
 			verifhook.Yield("serve.offer.before")
 			select {
 			case readerChan.c <- iqResponder{
-				r: xmlstream.Wrap(inner, start),
-				c: readerChan.c,
+				r:    xmlstream.Wrap(inner, start),
+				c:    readerChan.c,
+				once: new(sync.Once),
 			}:
 				verifhook.Yield("serve.awaitclose.before")
 				<-readerChan.c
